@@ -444,7 +444,8 @@ def result_dropped(fl, bb):
         for _ in range(4):
             if cur == 0:
                 break      # returned to the caller
-            us = [u for u in fl.uses.get(cur, []) if u[2] != 'drop']
+            us = [u for u in fl.uses.get(cur, []) if u[2] != 'drop' and not (
+                u[1] == 'term' and b.blocks[u[0]]['term']['k'] == 'call' and callee(b.blocks[u[0]]['term']) in ('std::mem::drop', 'core::mem::drop'))]
             if not us:
                 return True
             if len(us) == 1 and us[0][1] != 'term':
